@@ -100,13 +100,13 @@ def joined_keys_collide(x):
 
 SIZES = {
     # gen: constants of JoinGen.tla; laws: constants of JoinMC.tla (one TLC run each)
-    "quick": {"gen": {"MaxLen": 3, "MaxLen2": 2, "Wide": "FALSE", "NCfg": 800, "PerCfg": 3,
+    "quick": {"gen": {"MaxLen": 3, "MaxLen2": 2, "MaxLen3": 1, "Wide": "FALSE", "NCfg": 800, "PerCfg": 3,
                       "NLongU": 2500, "NLongS": 1000, "NLong2": 100},
-              "laws": [{"MaxLen": 3, "MaxLen2": 2, "Wide": "FALSE", "MCTotal": 4}]},
-    "thorough": {"gen": {"MaxLen": 3, "MaxLen2": 2, "Wide": "TRUE", "NCfg": 10000, "PerCfg": 4,
+              "laws": [{"MaxLen": 3, "MaxLen2": 2, "MaxLen3": 1, "Wide": "FALSE", "MCTotal": 4}]},
+    "thorough": {"gen": {"MaxLen": 3, "MaxLen2": 2, "MaxLen3": 2, "Wide": "TRUE", "NCfg": 10000, "PerCfg": 4,
                          "NLongU": 30000, "NLongS": 15000, "NLong2": 0},
-                 "laws": [{"MaxLen": 3, "MaxLen2": 2, "Wide": "FALSE", "MCTotal": 6},
-                          {"MaxLen": 3, "MaxLen2": 2, "Wide": "TRUE", "MCTotal": 4}]},
+                 "laws": [{"MaxLen": 3, "MaxLen2": 2, "MaxLen3": 1, "Wide": "FALSE", "MCTotal": 6},
+                          {"MaxLen": 3, "MaxLen2": 2, "MaxLen3": 1, "Wide": "TRUE", "MCTotal": 4}]},
 }
 
 
@@ -132,7 +132,7 @@ def run(tier, seed):
     laws_future = pool.submit(check_laws, size)
 
     # quick: one TLC process generates all parts of the case space; thorough: one process per part
-    parts = [0] if tier != "thorough" else [1, 2, 3, 4, 5]
+    parts = [0] if tier != "thorough" else [1, 2, 3, 4, 5, 6]
     with ThreadPoolExecutor(len(parts)) as ex:
         gens = list(ex.map(lambda p: b3.gen_cases("JoinGen", dict(size["gen"], Part=p), timeout=6000, seed=seed), parts))
     seen, cases = set(), []
